@@ -371,6 +371,9 @@ class Verdict:
     def __init__(self, prop, tier, seed):
         self.prop, self.tier, self.seed = prop, tier, seed
         self.violations = []     # (signature, what, replay_obj)
+        import glob
+        for f in glob.glob(os.path.join(REPLAYS, "%s-*.json" % prop)):
+            os.unlink(f)
         self.t0 = time.time()
         self.cov = {"states": 0, "transitions": 0, "traces_validated_against_impl": 0, "samples": [],
                     "evaluations": 0, "distinct_nontrivial": 0, "tlc_runs": [], "exhaustive": False}
